@@ -514,37 +514,38 @@ type LogReset struct {
 
 // Config selects the quantifiers the specification does not range over.
 type Config struct {
-	Path      string   `json:"path"`   // unsafe | typed | map1 | exchange
-	Caps      []int    `json:"caps"`   // NewWorld(caps...)
-	Comps     []string `json:"comps"`  // model components, in registration order
-	Fill      int      `json:"fill"`   // number of filler types registered first (ID layout)
-	RelSt     string   `json:"relst"`  // idx | typ | id : how relation targets are passed to the typed API
-	Perm      bool     `json:"perm"`   // permute type parameter order
-	Probes    int      `json:"probes"` // max probes after each sequence (0 = none, <0 = all)
-	Misuse    int      `json:"misuse"` // max misuse probes after each sequence
-	Seed      int64    `json:"seed"`
-	EveryOp   bool     `json:"everyop"`             // run the probe battery after every operation instead of at the end
-	Reuse     bool     `json:"reuse"`               // keep unregistered filter objects and reuse them
-	MaxEnt    int      `json:"maxent"`              // driver: soft bound on the number of alive entities
-	Observers int      `json:"observers"`           // driver: max simultaneously registered observers (0 = none)
-	ResetP    int      `json:"resetp"`              // driver: per-mille probability of World.Reset / DumpLoad per step
-	RegLocked bool     `json:"reglocked"`           // driver: attempts to register a new component type while the world is locked
-	DumpCopy  bool     `json:"dumpcopy"`            // DumpLoad: every load gets its own deserialised copy of the dump (another process)
-	ResP      int      `json:"resp"`                // driver: per-mille probability of a resource operation per step
-	TypedObs  bool     `json:"typedobs"`            // register observers through Observer1..4 where the observed set allows
-	Arity     bool     `json:"arity"`               // driver: draw component sets from the instantiated tuples of all arities
-	GridArity []int    `json:"gridarity,omitempty"` // coverage-guided targets: prefer the tuples of these arities (top-up runs of C14)
-	Grid      int      `json:"grid"`                // percent of driver operations drawn coverage-guided (grid.go)
-	Unbatch   bool     `json:"unbatch"`             // execute batch operations as the single-entity operations they abbreviate (C06)
-	BatchN    int      `json:"batchn"`              // driver: maximum size of NewBatch (default 5)
-	ObsP      int      `json:"obsp"`                // driver: per-mille probability of an observer operation per step
-	RegMax    int      `json:"regmax"`              // registry histories: register at most this many types (0: beyond the build's limit)
-	MapT      bool     `json:"mapt"`                // single-component operations through the hand-written ecs.Map[T] instead of Map1
-	Mem       bool     `json:"mem"`                 // emit mem events (heap objects of pointer-bearing components after forced GC)
-	GCStress  bool     `json:"gcstress"`            // collect garbage continuously in the background while histories run
-	QMis      bool     `json:"qmis"`                // run the query / mapper misuse battery after each history (C20)
-	Stats     bool     `json:"stats"`               // emit a stats event (with replayed twin) after each history
-	Queries   int      `json:"queries"`             // driver: max simultaneously open queries (0 = none)
+	Path       string   `json:"path"`   // unsafe | typed | map1 | exchange
+	Caps       []int    `json:"caps"`   // NewWorld(caps...)
+	Comps      []string `json:"comps"`  // model components, in registration order
+	Fill       int      `json:"fill"`   // number of filler types registered first (ID layout)
+	RelSt      string   `json:"relst"`  // idx | typ | id : how relation targets are passed to the typed API
+	Perm       bool     `json:"perm"`   // permute type parameter order
+	Probes     int      `json:"probes"` // max probes after each sequence (0 = none, <0 = all)
+	Misuse     int      `json:"misuse"` // max misuse probes after each sequence
+	Seed       int64    `json:"seed"`
+	EveryOp    bool     `json:"everyop"`             // run the probe battery after every operation instead of at the end
+	Reuse      bool     `json:"reuse"`               // keep unregistered filter objects and reuse them
+	MaxEnt     int      `json:"maxent"`              // driver: soft bound on the number of alive entities
+	Observers  int      `json:"observers"`           // driver: max simultaneously registered observers (0 = none)
+	ResetP     int      `json:"resetp"`              // driver: per-mille probability of World.Reset / DumpLoad per step
+	RegLocked  bool     `json:"reglocked"`           // driver: attempts to register a new component type while the world is locked
+	UnbatchNew bool     `json:"unbatchnew"`          // ID-based path: batch creation as the single ID-based creations it corresponds to (C14)
+	DumpCopy   bool     `json:"dumpcopy"`            // DumpLoad: every load gets its own deserialised copy of the dump (another process)
+	ResP       int      `json:"resp"`                // driver: per-mille probability of a resource operation per step
+	TypedObs   bool     `json:"typedobs"`            // register observers through Observer1..4 where the observed set allows
+	Arity      bool     `json:"arity"`               // driver: draw component sets from the instantiated tuples of all arities
+	GridArity  []int    `json:"gridarity,omitempty"` // coverage-guided targets: prefer the tuples of these arities (top-up runs of C14)
+	Grid       int      `json:"grid"`                // percent of driver operations drawn coverage-guided (grid.go)
+	Unbatch    bool     `json:"unbatch"`             // execute batch operations as the single-entity operations they abbreviate (C06)
+	BatchN     int      `json:"batchn"`              // driver: maximum size of NewBatch (default 5)
+	ObsP       int      `json:"obsp"`                // driver: per-mille probability of an observer operation per step
+	RegMax     int      `json:"regmax"`              // registry histories: register at most this many types (0: beyond the build's limit)
+	MapT       bool     `json:"mapt"`                // single-component operations through the hand-written ecs.Map[T] instead of Map1
+	Mem        bool     `json:"mem"`                 // emit mem events (heap objects of pointer-bearing components after forced GC)
+	GCStress   bool     `json:"gcstress"`            // collect garbage continuously in the background while histories run
+	QMis       bool     `json:"qmis"`                // run the query / mapper misuse battery after each history (C20)
+	Stats      bool     `json:"stats"`               // emit a stats event (with replayed twin) after each history
+	Queries    int      `json:"queries"`             // driver: max simultaneously open queries (0 = none)
 }
 
 type regFilter struct {
@@ -1537,6 +1538,37 @@ func (x *Exec) dispatch(op GenOp, e ecs.Entity, tg map[string]ecs.Entity, lo *Lo
 				lo.Ret = append(lo.Ret, h)
 				lo.Bvals = append(lo.Bvals, BVal{E: h, V: map[string]int64{}})
 			})
+			return
+		}
+		if x.Cfg.UnbatchNew && unsafePath {
+			// C14, ID-based execution: there is no ID-based batch creation; the corresponding ID-based calls are n single
+			// creations with the same component list, the values written through the pointers Unsafe.Get returns
+			ids := x.idsOf(op.Add)
+			rels := x.unsafeRels(tg)
+			for k := 1; k <= op.N; k++ {
+				var h ecs.Entity
+				if len(rels) > 0 {
+					h = u.NewEntityRel(ids, rels...)
+				} else {
+					h = u.NewEntity(ids...)
+				}
+				lo.Ret = append(lo.Ret, h)
+				switch op.Mode {
+				case "val":
+					x.writeUnsafe(h, op.Vals)
+				case "fn":
+					bv := BVal{E: h, V: map[string]int64{}}
+					vals := map[string]int64{}
+					for _, c := range op.Add {
+						v := int64(1000*k + 10*len(x.ords) + x.compIndex(c) + 1)
+						vals[c] = v
+						bv.V[c] = v
+					}
+					x.writeUnsafe(h, vals)
+					lo.Bvals = append(lo.Bvals, bv)
+				}
+			}
+			lo.Late = true
 			return
 		}
 		tuple := x.canon(op.Add)
